@@ -355,18 +355,41 @@ def ext_site(R, x):
     inner = frames[-1]
     for fr in reversed(frames):
         if fr.f_code is R.code_exth:
-            return "exthook"
+            try:
+                code, data = (fr.f_locals[n] for n in fr.f_code.co_varnames[1:3])
+                return "exthook=%d:%s" % (code, _label(R.msgpack.ExtType(code, bytes(data))))
+            except Exception:
+                return "exthook"
     for i, fr in enumerate(frames):
         if fr.f_code is R.code_proxy:
+            state = fr.f_locals.get(fr.f_code.co_varnames[1])
             if i < len(frames) - 1:
-                return "uri" if frames[i + 1].f_code.co_filename == R.core.__file__ else None
+                if frames[i + 1].f_code.co_filename != R.core.__file__:
+                    return None
+                try:
+                    return "uri=" + canon(R, state[0])
+                except Exception:
+                    return "uri"
             if isinstance(x, (KeyError, IndexError)) or "subscriptable" in str(x):
                 return None
+            for k in (1, 2, 3):             # which of the three set(...) calls it was: the first whose argument set() refuses
+                try:
+                    set(state[k])
+                except (KeyError, IndexError):
+                    break
+                except Exception:
+                    try:
+                        return "mkset=" + canon(R, state[k])
+                    except Exception:
+                        break
             return "mkset"
     if inner.f_code is R.code_serp:
         data = next((v for v in inner.f_locals.values() if type(v) is dict and "__class__" in v), None)
         if data is not None and data.get("__class__") == "float" and "value" in data:
-            return "float"
+            try:
+                return "float=" + canon(R, data["value"])
+            except Exception:
+                return "float"
         return None
     if inner.f_code.co_filename != R.serializers.__file__:
         return None
@@ -376,15 +399,32 @@ def ext_site(R, x):
     if len(etypes) != 1 or not datas:
         return None
     et, data = etypes[0], datas[0]
-    if any(type(v) is et or (isinstance(v, et) and isinstance(v, BaseException) and not isinstance(v, type)) for v in loc):
-        return "setattr" if type(data.get("attributes")) is dict else None
+    insts = [v for v in loc if isinstance(v, et) and not isinstance(v, type)]
+    if insts:
+        attrs = data.get("attributes")
+        if type(attrs) is not dict:
+            return None
+        # the attribute that failed: the first one (in order) that is not on the instance
+        missing = object()
+        for k, v in attrs.items():
+            if type(k) is str and getattr(insts[0], k, missing) is v:
+                continue
+            try:
+                return "setattr=%s=%s" % (("S" + _h(k.encode("utf-8", "surrogatepass"))) if type(k) is str else ("O" + _label(k)),
+                                          canon(R, v))
+            except Exception:
+                break
+        return "setattr"
     if "args" not in data:
         return None
     try:
-        iter(data["args"])
+        args = list(data["args"])
     except TypeError:
         return None
-    return "ctor:%s.%s" % (et.__module__, et.__qualname__)
+    try:
+        return "ctor:%s.%s=%s" % (et.__module__, et.__qualname__, ",".join(canon(R, a) for a in args))
+    except Exception:
+        return "ctor:%s.%s" % (et.__module__, et.__qualname__)
 
 
 # ------------------------------------------------------------------------------------------------
@@ -556,7 +596,7 @@ def run_real(R, ser, op, data, reg):
             else:
                 site = ext_site(R, r)
                 res["site"] = site
-                res["canon"] = "err " + (("ext:" + site.split(":")[0]) if site else err_enum(R, r))
+                res["canon"] = "err " + (("ext:" + site.replace("=", ":").split(":")[0]) if site else err_enum(R, r))
         # finalizers of what was built must be silent too
         REC.start()
         try:
